@@ -150,6 +150,20 @@ func Harness_C01_resolve() {
 		N = chain + 1
 		verifLabel("limit", "tightest")
 	}
+	if verifBound("prelude", 0) == 1 && verifChoose("prelude", 2) == 1 {
+		// an earlier, failing resolution of another book with the same recipe names in the same
+		// process must not influence this one (state kept between calls)
+		pre := shared.NewDBNodeMap()
+		for i, r := range ref.names {
+			els := shared.NewElements()
+			els.Add(ref.names[(i+1)%len(ref.names)], 1)
+			els.Add("x", 1)
+			pre.Push(&shared.DBNode{Header: r, Elements: els})
+		}
+		_, perr := hResolveAPI(api, N, pre)
+		verifAssert("cyclic-prelude-rejected", perr != nil)
+		verifLabel("prelude", "failing-resolution-first")
+	}
 	out, err := hResolveAPI(api, N, db)
 	verifAssert("no-error", err == nil)
 	if err != nil {
